@@ -198,6 +198,11 @@ class HX:
         try:
             return "ok", fn(*a, **k)
         except Exception as e:          # Control exceptions derive from BaseException and are not caught
+            import os
+            want = os.environ.get("VF_TRACE_EXC")
+            if want and type(e).__name__ in want.split(","):
+                import traceback
+                traceback.print_exc()
             return "exc", e
 
     @property
